@@ -59,14 +59,16 @@ inductive CField
   /-- `Field::DataMember`: type facts, `offset()` in bits -/
   | data (ty : FieldTy) (offBits : Option Nat)
   /-- `Field::Bitfields`: `nth()`, `layout()`, and the largest `offset_into_unit + width` of its
-  bit-fields (what the unit has to cover) -/
-  | unit (nth : Nat) (layout : Layout) (bitsEnd : Nat)
+  bit-fields (what the unit has to cover), and the bit offset in the record at which the unit
+  starts according to libclang (offset of its first bit-field minus that bit-field's
+  `offset_into_unit`), when known -/
+  | unit (nth : Nat) (layout : Layout) (bitsEnd : Nat) (startBits : Option Nat)
 deriving Repr, DecidableEq
 
 /-- `Field::layout(ctx)` -/
 def CField.layout : CField â†’ Option Layout
   | .data ty _ => ty.layout
-  | .unit _ l _ => some l
+  | .unit _ l _ _ => some l
 
 inductive UnionStyle | bindgenWrapper | manuallyDrop
 deriving DecidableEq, Repr
@@ -106,7 +108,7 @@ deriving Repr, DecidableEq
 
 /-- `CompInfo::has_bitfields` -/
 def CAgg.hasBitfields (c : CAgg) : Bool :=
-  c.fields.any fun f => match f with | .unit _ _ _ => true | _ => false
+  c.fields.any fun f => match f with | .unit _ _ _ _ => true | _ => false
 
 /-- `CompInfo::is_packed(ctx, layout)` -/
 def CAgg.isPacked (c : CAgg) : Bool :=
@@ -180,7 +182,7 @@ def emitFields (wrapZero : Bool) : Nat â†’ Tracker â†’ List CField â†’ Tracker Ã
     let (t, pad) := t.sawField ty off
     let (t', rest) := emitFields wrapZero (idx + 1) t fs
     (t', (match pad with | some p => [padField p] | none => []) ++ memberField wrapZero idx ty :: rest)
-  | idx, t, .unit nth l _ :: fs =>
+  | idx, t, .unit nth l _ _ :: fs =>
     let t := t.sawBitfieldUnit l
     let (t', rest) := emitFields wrapZero (idx + 1) t fs
     (t', { name := .unit nth, size := if wrapZero then 0 else l.size, align := 1 } :: rest)
@@ -299,6 +301,10 @@ def reprC (r : RustAgg) : Option RLayout :=
   let (offs, cur, ma) := if r.isUnion then unionFields r.packed 0 1 r.fields else placeFields r.packed 0 1 r.fields
   let a := match r.align with | some e => max ma e | none => ma
   some { size := alignTo cur a, align := a, offsets := offs }
+
+/-- offset of the bit-field unit `_bitfield_{nth}` -/
+def RLayout.unitOffset (l : RLayout) (nth : Nat) : Option Nat :=
+  l.offsets.findSome? fun (n, o) => if n == FName.unit nth then some o else none
 
 /-- offsets of the user members, in order -/
 def RLayout.userOffsets (l : RLayout) : List (Nat Ã— Nat) :=
